@@ -7,7 +7,7 @@ import fsic.parser as fp
 from fsic.parser import Term, Type
 from pyvc import values as V
 from pyvc.contracts import Call, FunctionContract
-from pyvc.interp import exc_class
+from pyvc.interp import PyRaise, exc_class
 from pyvc.values import INT, STR, SInt, SObj, SStr
 
 VARLIKE = (Type.VARIABLE, Type.EXOGENOUS, Type.ENDOGENOUS, Type.PARAMETER, Type.ERROR)
@@ -142,3 +142,161 @@ class TermContract(FunctionContract):
 
 
 CONTRACTS = [TermContract('str'), TermContract('code')]
+
+
+# ---------------------------------------------------------------------------------------------------------------
+# parse_terms.process_term_match and parse_equation_terms
+# ---------------------------------------------------------------------------------------------------------------
+GROUPS = ['_VERBATIM', '_INVALID', '_KEYWORD', '_FUNCTION', '_PARAMETER', '_ERROR', '_VARIABLE']
+INDEX_SHAPES = ['absent', 'single-quoted', 'double-quoted', 'backticked', 'digits', 'plus-digits', 'minus-digits', 'other']
+
+
+class ProcessTermMatch(FunctionContract):
+    qualname = 'fsic.parser.parse_terms.process_term_match'
+    props = ('C01', 'C14')
+
+    def scenarios(self):
+        return [f'{g}/{ix}' for g in GROUPS for ix in INDEX_SHAPES]
+
+    def setup(self, interp, scenario):
+        from pyvc.interp import Closure, Frame
+        from pyvc.extract import get_function
+        ctx = interp.ctx
+        g, ix = scenario.split('/')
+        text = ctx.fresh('text', STR)
+        e = {'group': g, 'ix': ix, 'text': text, 'inputs': {}}
+        q = ctx.fresh('q', STR)
+        m = ctx.fresh('m', INT)
+        ctx.assume(m >= 0)
+        e['q'], e['m'] = q, m
+        index = {'absent': None, 'single-quoted': SStr([('c', "'"), ('s', q), ('c', "'")]), 'double-quoted': SStr([('c', '"'), ('s', q), ('c', '"')]),
+                 'backticked': SStr([('c', '`'), ('s', q), ('c', '`')]), 'digits': SStr([('i', m)]), 'plus-digits': SStr([('c', '+'), ('i', m)]),
+                 'minus-digits': SStr([('c', '-'), ('i', m)]), 'other': SStr(q)}[ix]
+        if ix == 'other':
+            # text that is neither quoted nor backticked; whether it is an integer literal is decided by int()
+            for ch in ("'", '"', '`'):
+                ctx.assume(z3.Not(z3.And(z3.PrefixOf(z3.StringVal(ch), q), z3.SuffixOf(z3.StringVal(ch), q))))
+        e['index'] = index
+        e['inputs']['m'] = m
+        gd = {k: None for k in GROUPS}
+        gd[g] = SStr(text)
+        gd['INDEX'] = index
+
+        class Match:
+            def groupdict(self_):
+                return dict(gd)
+
+            def group(self_, k):
+                return 'matched text'
+        # the function is nested in parse_terms: run it as a closure over `expression`
+        outer = get_function('fsic.parser.parse_terms')
+        fr = Frame(outer)
+        fr.locals['expression'] = 'expression text'
+        e['closure_frame'] = fr
+        self._closure_frame = fr
+        return Call([Match()], {}, entry=e)
+
+    def post(self, interp, scenario, call, out):
+        from fsic.exceptions import ParserError
+        ctx = interp.ctx
+        e = call.entry
+        g, ix = e['group'], e['ix']
+        indexed = g not in ('_FUNCTION', '_KEYWORD')
+        if out.kind == 'raise':
+            ctx.prove(z3.BoolVal(exc_class(out.exc) is ParserError and indexed and ix == 'other'), 'ParserError_only_for_index_text_that_is_not_an_integer', 'raises')
+            if ix == 'other':
+                from pyvc.libspec import IS_INT_LITERAL
+                ctx.prove(z3.Not(IS_INT_LITERAL(e['q'])), 'ParserError_iff_the_text_is_not_an_integer_literal', 'raises')
+            return
+        r = out.value
+        ok = isinstance(r, SObj) and r.cls is Term
+        ctx.prove(z3.BoolVal(ok), 'returns_a_Term', 'ensures')
+        if not ok:
+            return
+        f = r.fields
+        ctx.prove(z3.BoolVal(f['type'] is Type[g[1:]]), 'term_type_is_the_matched_group', 'ensures')
+        ctx.prove(V.z3_of(f['name']) == e['text'], 'term_name_is_the_matched_text', 'ensures')
+        idx = f['index_']
+        if not indexed:
+            ctx.prove(z3.BoolVal(idx is None), 'functions_and_keywords_carry_no_index', 'ensures')
+            return
+        if ix == 'absent':
+            ctx.prove(z3.BoolVal(idx == 0 and not V.is_sym(idx)), 'no_index_means_the_current_period', 'ensures')
+        elif ix in ('single-quoted', 'double-quoted'):
+            ctx.prove(z3.BoolVal(isinstance(idx, SStr) and idx.parts == e['index'].parts), 'quoted_period_is_kept_as_text', 'ensures')
+        elif ix == 'backticked':
+            ctx.prove(z3.BoolVal(isinstance(idx, SStr) and idx.parts == [('s', e['q'])]), 'backticked_period_is_kept_as_text_without_backticks', 'ensures')
+        elif ix in ('digits', 'plus-digits', 'minus-digits'):
+            want = -e['m'] if ix == 'minus-digits' else e['m']
+            ctx.prove(z3.BoolVal(V.kind_of(idx) == 'int') if V.kind_of(idx) != 'int' else V.to_int_term(idx) == want, 'signed_digits_give_that_lag_or_lead', 'ensures')
+        else:
+            from pyvc.libspec import IS_INT_LITERAL, INT_OF_TEXT
+            ctx.prove(z3.And(IS_INT_LITERAL(e['q']), V.to_int_term(idx) == INT_OF_TEXT(e['q'])) if V.kind_of(idx) == 'int' else z3.BoolVal(False),
+                      'any_other_index_is_int(text)', 'ensures')
+
+
+class ParseEquationTerms(FunctionContract):
+    qualname = 'fsic.parser.parse_equation_terms'
+    props = ('C01', 'C03')
+
+    def scenarios(self):
+        kinds = ['VARIABLE', 'PARAMETER', 'KEYWORD', 'FUNCTION', 'INVALID', 'VERBATIM']
+        return [f'{a}|{b}' for a in kinds for b in kinds] + ['left-raises', 'right-raises', 'VARIABLE,ERROR|VARIABLE,VARIABLE']
+
+    def setup(self, interp, scenario):
+        from fsic.exceptions import ParserError
+        from pyvc.values import SExc
+        ctx = interp.ctx
+        e = {'scenario': scenario, 'calls': []}
+
+        def term(i, kind):
+            return SObj(Term, {'name': SStr(ctx.fresh(f'name{i}', STR)), 'type': Type[kind], 'index_': SInt(ctx.fresh(f'k{i}', INT)) if kind not in ('KEYWORD', 'FUNCTION') else None}, label=f'term{i}')
+        if scenario in ('left-raises', 'right-raises'):
+            lk, rk = ['VARIABLE'], ['VARIABLE']
+        else:
+            l, r = scenario.split('|')
+            lk, rk = l.split(','), r.split(',')
+        e['left'] = [term(i, k) for i, k in enumerate(lk)]
+        e['right'] = [term(10 + i, k) for i, k in enumerate(rk)]
+        eq = ctx.fresh('equation', STR)
+        ctx.assume(z3.Contains(eq, z3.StringVal('=')))
+
+        def parse_terms(interp_, o, args, kwargs, node):
+            n = len(e['calls'])
+            e['calls'].append(args[0])
+            if (scenario == 'left-raises' and n == 0) or (scenario == 'right-raises' and n == 1):
+                exc = SExc(ParserError, origin='parse_terms')
+                e['inner_exc'] = exc
+                raise PyRaise(exc)
+            return list(e['left'] if n == 0 else e['right'])
+        interp.registry.set_calls({'fsic.parser.parse_terms': parse_terms})
+        return Call([SStr(eq)], {}, entry=e)
+
+    def post(self, interp, scenario, call, out):
+        from fsic.exceptions import ParserError
+        ctx = interp.ctx
+        e = call.entry
+        lkinds = [t.fields['type'] for t in e['left']]
+        rkinds = [t.fields['type'] for t in e['right']]
+        must_reject = Type.KEYWORD in lkinds or Type.INVALID in rkinds or scenario in ('left-raises', 'right-raises')
+        if out.kind == 'raise':
+            ctx.prove(z3.BoolVal(exc_class(out.exc) is ParserError and must_reject), 'ParserError_only_for_keyword_on_the_left_indexed_keyword_on_the_right_or_bad_term', 'raises')
+            if scenario in ('left-raises', 'right-raises'):
+                ctx.prove(z3.BoolVal(getattr(out.exc, 'cause', None) is e.get('inner_exc')), 'term_level_ParserError_is_chained', 'raises')
+            return
+        ctx.prove(z3.BoolVal(not must_reject), 'keyword_as_variable_name_is_rejected', 'raises')
+        r = out.value
+        ok = isinstance(r, list) and len(r) == len(e['left']) + len(e['right'])
+        ctx.prove(z3.BoolVal(ok), 'left_hand_terms_then_right_hand_terms', 'ensures')
+        if not ok:
+            return
+        ctx.prove(z3.BoolVal(len(e['calls']) == 2), 'both_sides_of_the_first_equals_sign_are_tokenised', 'ensures')
+        for got, src, side in [(a, b, 'left') for a, b in zip(r, e['left'])] + [(a, b, 'right') for a, b in zip(r[len(e['left']):], e['right'])]:
+            want_type = src.fields['type']
+            if want_type is Type.VARIABLE:
+                want_type = Type.ENDOGENOUS if side == 'left' else Type.EXOGENOUS
+            same = isinstance(got, SObj) and got.fields['type'] is want_type and got.fields['name'] is src.fields['name'] and got.fields['index_'] is src.fields['index_']
+            ctx.prove(z3.BoolVal(same), f'{side}_term:plain_variables_become_{"endogenous" if side == "left" else "exogenous"}_everything_else_is_untouched', 'ensures')
+
+
+CONTRACTS += [ProcessTermMatch(), ParseEquationTerms()]
